@@ -76,6 +76,7 @@ func wholeStores(a *ssa.Alloc) []*ssa.Store {
 }
 
 func checkC19(c *Ctx) {
+	c.checkKeyMakers("C19", 1)
 	p, r := c.P, c.R
 	reach := c.ConsensusReach()
 	r.Min("C19.clamp", 1)
